@@ -13,7 +13,7 @@ ID = "C22"
 LEVEL = "exploration"
 RULE = (
     "full product of the finite alphabets (fsolve: 6 residual families x n in {1,2,4,8} x 2 starts x 3x3 tolerances x 4 iteration "
-    "limits x 6 Jacobian modes; fixed-point helpers: 2 helpers x 7 map families x n in 1..8 x 3x2 tolerances x 4 iteration limits; approx_fprime: "
+    "limits x 6 Jacobian modes; fixed-point helpers: 2 helpers x 7 map families x n in 1..8 x 6 tolerance pairs x 4 iteration limits x {float, per-component} atol x {pure, in-place} map x {keyword, positional} call; approx_fprime: "
     "5 functions x 3 methods x 3-4 step sizes); one case per (helper, family, n); non-trivial = the helper returned and the harness "
     "could re-evaluate the criterion, or the helper reported failure"
 )
@@ -125,7 +125,8 @@ def check_fsolve(case, seed):
                 opts = SolverOptions(**kw)
                 args = dict(jac=jac, inexact=True)
             else:
-                opts = SolverOptions(**kw)
+                # options built positionally in the dataclass field order (fixed-point atol, rtol, max_iter, newton atol, rtol, max_iter)
+                opts = SolverOptions(1e-6, 1e-6, 1000, atol, rtol, mi)
                 args = dict(jac=jac)
             with warnings.catch_warnings(record=True) as w:
                 warnings.simplefilter("always")
@@ -210,7 +211,7 @@ def check_fp(case, seed):
     A, b = fp_map(name, n)
     fails, outcomes, evals = [], set(), 0
     worst = 0.0
-    for (atol, rtol), mi, atol_kind, inplace in itertools.product(FP_TOLS, FP_MAXIT, ("float", "array"), (False, True)):
+    for (atol, rtol), mi, atol_kind, inplace, call in itertools.product(FP_TOLS, FP_MAXIT, ("float", "array"), (False, True), ("kw", "pos")):
         calls = []
         atol_scalar = atol
         if atol_kind == "array":
@@ -230,12 +231,16 @@ def check_fp(case, seed):
             return y
 
         x0 = np.zeros(n) + 0.25
-        letters = {"helper": case["helper"], "family": name, "n": n, "atol": atol_scalar, "atol_kind": atol_kind, "rtol": rtol, "max_iter": mi, "inplace_map": inplace}
+        letters = {"helper": case["helper"], "family": name, "n": n, "atol": atol_scalar, "atol_kind": atol_kind, "rtol": rtol, "max_iter": mi, "inplace_map": inplace, "call": call}
         evals += 1
         x0_before = x0.copy()
         try:
             with np.errstate(all="ignore"):
-                out = helper(fun, x0, atol=atol, rtol=rtol, max_iter=mi)
+                if call == "pos":
+                    # the signature order (fun, x0, atol, rtol, max_iter) is how DualStormerVerlet-style callers may pass them
+                    out = helper(fun, x0, atol, rtol, mi)
+                else:
+                    out = helper(fun, x0, atol=atol, rtol=rtol, max_iter=mi)
         except Exception as e:
             outcomes.add(f"{case['helper']}:raised")
             out = None
